@@ -73,6 +73,7 @@ def undoSession (ops : List String) (src : List (List Nat) := []) : String := Id
         t := { t with cur := Core.checkAppend t.line { cur with pos := cur.pos + d.toInt?.getD 0 } }
       | ["W", d] => t ← save t; t ← walk t (d.toInt?.getD 0)
       | ["A"] => t ← acceptAndNextCall (-1) t
+      | ["S", fwd, regex] => t ← searchCmd t (fwd == "1") (regex == "1")
       | ["U"] => t ← undo t
       | ["R"] => t ← redo t
       | _ => pure ()
